@@ -347,6 +347,7 @@ func execCrash(c *stCase) []string {
 				}
 			}
 		}
+		e.ref, e.noRef = nil, true // the reference index plays no role in the image runs
 		for n, im := range chosen {
 			img := filepath.Join(root, fmt.Sprintf("img%05d", n))
 			if err := linkImage(snaps[im.snap], img, im.cut); err != nil {
